@@ -2,26 +2,41 @@ package main
 
 import (
 	"bytes"
+	"path/filepath"
 
 	"k8s.io/gengo/generator"
+	"k8s.io/gengo/namer"
 	"verif/common"
 )
+
+func asmFile(a *common.AsmFile) *generator.File {
+	f := &generator.File{Name: "zz.go", FileType: "golang", PackageName: a.PkgName, Header: []byte(a.Header), Imports: map[string]struct{}{}}
+	for _, i := range a.Imports {
+		f.Imports[i] = struct{}{}
+	}
+	f.Vars.WriteString(a.Vars)
+	f.Consts.WriteString(a.Consts)
+	f.Body.WriteString(a.Body)
+	return f
+}
 
 func init() {
 	ft := generator.NewGolangFile()
 	props["C09"] = common.AsmProperty(common.AsmImpl{
 		Assemble: func(a *common.AsmFile) []byte {
-			f := &generator.File{Name: "zz.go", FileType: "golang", PackageName: a.PkgName, Header: []byte(a.Header), Imports: map[string]struct{}{}}
-			for _, i := range a.Imports {
-				f.Imports[i] = struct{}{}
-			}
-			f.Vars.WriteString(a.Vars)
-			f.Consts.WriteString(a.Consts)
-			f.Body.WriteString(a.Body)
 			var b bytes.Buffer
-			ft.Assemble(&b, f)
+			ft.Assemble(&b, asmFile(a))
 			return b.Bytes()
 		},
-		Format: ft.Format,
+		Format:       ft.Format,
+		AssembleFile: func(a *common.AsmFile, path string) error { return ft.AssembleFile(asmFile(a), path) },
+		PackageRun: func(header, doc []byte, otherBody, dir string) error {
+			c := &generator.Context{Namers: namer.NameSystems{}, FileTypes: map[string]generator.FileType{generator.GolangFileType: generator.NewGolangFile()}}
+			p := &generator.DefaultPackage{PackageName: "demo", PackagePath: "demo", HeaderText: header, PackageDocumentation: doc,
+				GeneratorList: []generator.Generator{generator.DefaultGen{OptionalName: "doc"}, generator.DefaultGen{OptionalName: "other", OptionalBody: []byte(otherBody)}}}
+			return c.ExecutePackage(dir, p)
+		},
 	})
 }
+
+var _ = filepath.Join
